@@ -118,6 +118,7 @@ func TestVerifC20Exhaustive(t *testing.T) {
 		if d.reloads > 0 {
 			out.Linef("nt")
 		}
+		v20EmitRetries(out)
 		out.Linef("end")
 		out.Flush()
 		return children, d.bad
